@@ -18,8 +18,9 @@ Proof.
   destruct (Nat.eqb (length (firstn (Z.to_nat count) (skipn (Z.to_nat from) m))) (Z.to_nat count)); [|discriminate].
   injection R as R. unfold write_bytes, memmove_spec, zlen in *.
   destruct (Z.leb_spec 0 to); [|lia]. cbn [andb].
-  destruct (Z.leb_spec (to + Z.of_nat (length chunk)) (Z.of_nat (length m))); [|lia].
-  rewrite <- R. do 3 f_equal. rewrite R, L. lia.
+  rewrite L. rewrite Z2Nat.id by lia.
+  destruct (Z.leb_spec (to + count) (Z.of_nat (length m))); [|lia].
+  rewrite <- R. do 4 f_equal. lia.
 Qed.
 
 (* copyWithin's copy step: shared and plain buffers get the same bytes *)
@@ -33,3 +34,219 @@ Proof.
   destruct (memmove_spec_through_temporary m from to count) as (chunk' & R' & W'); try assumption.
   congruence.
 Qed.
+
+(* ------------------------------------------------------------------------------------------ *)
+(* bulk operations never reach OPanic *)
+
+Lemma thrown_np {A} s (r : res A) k :
+  (forall a, r = Ok a -> snd (k a) <> OPanic) -> snd (thrown s r k) <> OPanic.
+Proof. intros H. unfold thrown. destruct r; [apply H; reflexivity | cbn; discriminate]. Qed.
+
+Ltac np_step :=
+  repeat first
+    [ discriminate
+    | note_mid
+    | apply thrown_np; intros ? ?
+    | match goal with
+      | |- snd (_, _) <> OPanic => cbn [snd]
+      | |- snd (match ?x with _ => _ end) <> OPanic => destruct x eqn:?
+      | |- snd (if ?x then _ else _) <> OPanic => destruct x eqn:?
+      end ].
+
+Lemma set_many_some c t v ks : forall s, wf_state s -> wf_tarr t -> set_many c s t ks v <> Ok None.
+Proof.
+  induction ks as [| k r IH]; intros s W T; cbn [set_many]; [discriminate|].
+  destruct (set_element c s t (idx_of_Z k) v) as [[s1|]|] eqn:E; cbn [bind]; try discriminate.
+  - apply IH; [eapply wf_set_element; eauto | exact T].
+  - exfalso. eapply wf_set_element_some; eauto.
+Qed.
+
+Lemma set_list_some c t vs : forall s k, wf_state s -> wf_tarr t -> set_list c s t k vs <> Ok None.
+Proof.
+  induction vs as [| v r IH]; intros s k W T; cbn [set_list]; [discriminate|].
+  destruct (set_element c s t (idx_of_Z k) v) as [[s1|]|] eqn:E; cbn [bind]; try discriminate.
+  - apply IH; [eapply wf_set_element; eauto | exact T].
+  - exfalso. eapply wf_set_element_some; eauto.
+Qed.
+
+Lemma u64_idx x sz off : 0 <= x <= LIM -> 0 < sz <= 8 -> 0 <= off <= LIM ->
+  u64 (u64 (x * sz) + off) = x * sz + off /\ u64 (x * sz) = x * sz.
+Proof.
+  intros Hx Hs Ho.
+  assert (E : u64 (x * sz) = x * sz).
+  { apply u64_small. unfold LIM in *. change (2 ^ 64) with (2 ^ 53 * 2048). change (2 ^ 53) with 9007199254740992 in *. nia. }
+  split; [|exact E]. rewrite E. apply u64_small.
+  unfold LIM in *. change (2 ^ 64) with (2 ^ 53 * 2048). change (2 ^ 53) with 9007199254740992 in *. nia.
+Qed.
+
+(* a validated view: its buffer is attached, the cached length is the byte list's length, the view fits *)
+Lemma ta_validate_data s t bl l : wf_state s -> wf_tarr t -> ta_validate s t = Ok bl -> buf_data s (t_buf t) = Some l ->
+  bl = zlen l /\ 0 <= ta_length t bl /\ t_off t + ta_length t bl * esize (t_kind t) <= zlen l /\ 0 <= t_off t <= LIM /\ zlen l <= LIM.
+Proof.
+  intros W T V D. unfold ta_validate in V. rewrite D in V.
+  destruct (ta_oob t (zlen l)) eqn:O; [discriminate|]. injection V as <-.
+  pose proof (wf_buf_data _ _ _ W D) as B. pose proof (zlen_bounds l) as B0.
+  pose proof (ta_length_bound t (zlen l) T (conj B0 (lim_lt_64 _ B)) O) as [L0 L1].
+  pose proof (esize_pos (t_kind t)). destruct T as [T0 _].
+  repeat split; try assumption; try lia; try nia.
+Qed.
+
+Lemma ta_validate_attached s t bl : ta_validate s t = Ok bl -> exists l, buf_data s (t_buf t) = Some l.
+Proof. unfold ta_validate. destruct (buf_data s (t_buf t)) as [l|]; [eauto | discriminate]. Qed.
+
+Lemma get_buf_new_buf_fresh s d bf : get_buf (new_buf s d bf) (fresh_id s) = Some bf.
+Proof. unfold get_buf, new_buf, fresh_id. cbn [bufs]. rewrite app_nth2 by lia. rewrite Nat.sub_diag. reflexivity. Qed.
+
+Lemma get_buf_new_buf_old s d bf id x : get_buf s id = Some x -> get_buf (new_buf s d bf) id = Some x.
+Proof.
+  unfold get_buf, new_buf. cbn [bufs]. intros E.
+  destruct (Nat.lt_ge_cases id (length (bufs s))) as [L | L].
+  - rewrite app_nth1 by exact L. exact E.
+  - rewrite nth_overflow in E by exact L. discriminate.
+Qed.
+
+Lemma alloc_ta_data s db k n s' t' : alloc_ta s db k n = Ok (s', t') ->
+  buf_data s' (t_buf t') = Some (zeros (u64 (esize k * n))) /\
+  (forall id l, buf_data s id = Some l -> buf_data s' id = Some l).
+Proof.
+  unfold alloc_ta. destruct (MAX_BUFFER_SIZE <? u64 (esize k * n)); [discriminate|].
+  intros E. injection E as <- <-. split.
+  - unfold buf_data. cbn [t_buf]. rewrite get_buf_new_buf_fresh. reflexivity.
+  - intros id l. unfold buf_data. destruct (get_buf s id) as [x|] eqn:G; [|discriminate].
+    rewrite (get_buf_new_buf_old _ _ _ _ _ G). auto.
+Qed.
+
+Ltac u64_clean :=
+  repeat match goal with
+  | H : context[u64 (u64 (?x * ?sz) + ?off)] |- _ =>
+      rewrite (proj1 (u64_idx x sz off ltac:(lia) ltac:(lia) ltac:(lia))) in H
+  | H : context[u64 (?x * ?sz)] |- _ =>
+      rewrite (proj2 (u64_idx x sz 0 ltac:(lia) ltac:(lia) ltac:(unfold LIM; lia))) in H
+  end.
+
+Lemma kind_eqb_eq a b : kind_eqb a b = true -> a = b.
+Proof. destruct a, b; cbn; intros; try discriminate; reflexivity. Qed.
+
+Lemma ta_read_some t j data : wf_tarr t -> 0 <= j -> 0 <= t_off t <= LIM -> zlen data <= LIM ->
+  t_off t + (j + 1) * esize (t_kind t) <= zlen data -> ta_read t j data <> None.
+Proof.
+  intros T Hj Ho Hz Hb. unfold ta_read, ta_byte_index. pose proof (esize_pos (t_kind t)) as S.
+  assert (J : 0 <= j <= LIM) by nia.
+  rewrite (proj1 (u64_idx j (esize (t_kind t)) (t_off t) J S Ho)).
+  destruct (read_bytes_ok (j * esize (t_kind t) + t_off t) (nsize (t_kind t)) data) as (bs & E & _).
+  - nia.
+  - rewrite nsize_esize. lia.
+  - rewrite E. discriminate.
+Qed.
+
+Lemma cast_loop_some c st k data n : forall i acc p,
+  (forall j, i <= j < i + Z.of_nat n -> ta_read st j data <> None) ->
+  cast_loop c st k data n i acc p <> None.
+Proof.
+  induction n as [| n IH]; intros i acc p H; cbn [cast_loop]; [discriminate|].
+  destruct (ta_read st i data) as [bits|] eqn:R; [|exfalso; apply (H i); [lia | exact R]].
+  destruct (cast_elem c (t_kind st) k bits); apply IH; intros j Hj; apply H; lia.
+Qed.
+
+Section NeverPanic.
+Variable c : cfg.
+Variable s : state.
+Hypothesis W : wf_state s.
+
+Lemma np_Fill v x st en m : snd (step c s (Fill v x st en m)) <> OPanic.
+Proof.
+  cbn [step]. np_step; facts.
+  match goal with E : set_many _ ?s1 ?t _ _ = Ok None, W1 : wf_state ?s1, T : wf_tarr ?t |- _ =>
+    exfalso; exact (set_many_some _ _ _ _ _ W1 T E) end.
+Qed.
+
+Lemma np_SetArr v xs off : snd (step c s (SetArr v xs off)) <> OPanic.
+Proof.
+  cbn [step]. np_step; facts.
+  match goal with E : set_list _ s ?t _ _ = Ok None, T : wf_tarr ?t |- _ =>
+    exfalso; exact (set_list_some _ _ _ _ _ W T E) end.
+Qed.
+
+Lemma np_Subarray d v st en : snd (step c s (Subarray d v st en)) <> OPanic.
+Proof. cbn [step]. np_step. Qed.
+
+Lemma np_CopyWithin v tg st en m : snd (step c s (CopyWithin v tg st en m)) <> OPanic.
+Proof.
+  cbn [step]. np_step; facts; facts2.
+  all: match goal with
+       | V : ta_validate ?s1 ?t = Ok ?bl, D : buf_data ?s1 (t_buf ?t) = Some ?l, W1 : wf_state ?s1, T : wf_tarr ?t |- _ =>
+           destruct (ta_validate_data _ _ _ _ W1 T V D) as (-> & L0 & L1 & O1 & Z1)
+       | V : ta_validate ?s1 ?t = Ok ?bl, D : buf_data ?s1 (t_buf ?t) = None |- _ =>
+           destruct (ta_validate_attached _ _ _ V) as [? ?]; congruence
+       end.
+  all: pose proof (esize_pos (t_kind t)) as S.
+  all: match goal with H : (_ || _) = false |- _ => apply orb_false_elim in H; destruct H as [Q1 Q2]; apply Z.leb_gt in Q1; apply Z.leb_gt in Q2 end.
+  all: match goal with H : (0 <? ?cnt) = true |- _ => apply Z.ltb_lt in H; set (cn := cnt) in * end.
+  all: assert (Hcn : 0 < cn <= LIM) by (unfold cn in *; destruct ((a1 <=? a3) && (a0 <=? ta_length t a)); lia).
+  all: clearbody cn.
+  all: u64_clean.
+  - (* the write cannot fail after a successful read *)
+    match goal with R : read_bytes _ ?n _ = Some ?l0, Wr : write_bytes ?to ?l0 ?l = None |- _ =>
+      pose proof (read_bytes_length _ _ _ _ R) as RL;
+      destruct (write_bytes_ok to l0 l) as [x Hx]; [lia | rewrite RL; lia | congruence] end.
+  - (* the read cannot fail *)
+    match goal with R : read_bytes ?from ?n ?l = None |- _ =>
+      destruct (read_bytes_ok from n l) as (x & Hx & _); [lia | lia | congruence] end.
+Qed.
+
+Lemma np_Slice d db v st en m : snd (step c s (Slice d db v st en m)) <> OPanic.
+Proof.
+  cbn [step]. np_step; facts; facts2.
+  all: match goal with E : alloc_ta ?s1 _ _ ?n = Ok (?s', ?t'), W1 : wf_state ?s1 |- _ =>
+         let B := fresh "B" in assert (B : 0 <= n <= LIM) by lia;
+         destruct (wf_alloc_ta _ _ _ _ _ _ W1 B E) as (W' & T' & _);
+         destruct (alloc_ta_data _ _ _ _ _ _ E) as (ND & OLD);
+         assert (W3 : wf_state (put_view s' d (Some (VTA t')))) by (apply wf_put_view; assumption)
+       end.
+  all: repeat match goal with H : context[buf_data (put_view ?s' ?dd ?x) ?id] |- _ => change (buf_data (put_view s' dd x) id) with (buf_data s' id) in H end.
+  all: try (match goal with V : ta_validate ?s1 ?t = Ok ?bl, D : buf_data _ (t_buf ?t) = None |- _ =>
+             destruct (ta_validate_attached _ _ _ V) as [? HH];
+             change (buf_data (put_view s0 d (Some (VTA t0))) (t_buf t)) with (buf_data s0 (t_buf t)) in HH; congruence end).
+  all: try congruence.
+  all: match goal with
+       | V : ta_validate ?s3 ?t = Ok ?bl, D : buf_data ?s0 (t_buf ?t) = Some ?l, T : wf_tarr ?t |- _ =>
+           destruct (ta_validate_data s3 t bl l W3 T V D) as (-> & L0 & L1 & O1 & Z1)
+       end.
+  all: pose proof (esize_pos (t_kind t)) as S.
+  all: repeat match goal with H : (_ =? 0) = false |- _ => apply Z.eqb_neq in H end.
+  all: u64_clean.
+  - match goal with R : read_bytes _ ?n _ = Some ?l0, Wr : write_bytes 0 ?l0 ?l1 = None |- _ =>
+      pose proof (read_bytes_length _ _ _ _ R) as RL;
+      destruct (write_bytes_ok 0 l0 l1) as [x Hx]; [lia | | congruence] end.
+    rewrite RL. rewrite ND in *. match goal with H : Some _ = Some l1 |- _ => injection H as <- end.
+    rewrite zlen_zeros by apply u64_nonneg.
+    rewrite (Z.mul_comm (esize (t_kind t)) (Z.max 0 (a2 - a0))).
+    rewrite (proj2 (u64_idx (Z.max 0 (a2 - a0)) (esize (t_kind t)) 0 ltac:(lia) ltac:(lia) ltac:(unfold LIM; lia))).
+    nia.
+  - match goal with R : read_bytes ?from ?n ?l = None |- _ =>
+      destruct (read_bytes_ok from n l) as (x & Hx & _); [lia | nia | congruence] end.
+Qed.
+
+Lemma np_MkTAFrom d db k src : snd (step c s (MkTAFrom d db k src)) <> OPanic.
+Proof.
+  cbn [step]. np_step; facts.
+  all: try (match goal with V : ta_validate s ?t = Ok ?bl, D : buf_data s (t_buf ?t) = None |- _ =>
+              destruct (ta_validate_attached _ _ _ V) as [? ?]; congruence end).
+  all: match goal with
+       | V : ta_validate s ?t = Ok ?bl, D : buf_data s (t_buf ?t) = Some ?l, T : wf_tarr ?t |- _ =>
+           destruct (ta_validate_data _ _ _ _ W T V D) as (-> & L0 & L1 & O1 & Z1)
+       end.
+  all: pose proof (esize_pos (t_kind t)) as S.
+  - (* same element type: the clone reads length * size bytes from the view's offset *)
+    match goal with K : kind_eqb k (t_kind t) = true |- _ => apply kind_eqb_eq in K; subst k end.
+    match goal with R : read_bytes ?from ?n ?l = None |- _ =>
+      destruct (read_bytes_ok from n l) as (x & Hx & _); [lia | | congruence] end.
+    rewrite (Z.mul_comm (esize (t_kind t))).
+    rewrite (proj2 (u64_idx (ta_length t (zlen l)) (esize (t_kind t)) 0 ltac:(lia) ltac:(lia) ltac:(unfold LIM; lia))).
+    lia.
+  - (* different element type: every element read is inside the byte list *)
+    exfalso. match goal with E : cast_loop _ _ _ _ _ _ _ _ = None |- _ => revert E end.
+    apply cast_loop_some. intros j Hj. apply ta_read_some; try assumption; try lia. nia.
+Qed.
+
+End NeverPanic.
